@@ -5,7 +5,8 @@ CONSTANTS
   Vers = {1, 2}
   Times = {1, 2, 3}
   Nows = {0, 1, 2, 3}
-  Maxes = {-1, 0, 1, 2, 3}
+  Maxes = {0, 1, 2, 3}
+  NegMax = TRUE
   Rejects = {{}, {"a"}, {"b", "c"}, {"a", "b", "c"}}
   RemoveSets = {{}, {"zz"}, {"a"}, {"b", "zz"}, {"a", "c"}, {"a", "b", "c"}}
 INVARIANTS TypeOK GetReturnsLive QueueMatchesMap TakenAreGone
